@@ -200,6 +200,7 @@ package ssh
 
 //@ func parseInt
 //@ props C24
+//@ assume_global bigOne != nil && bv(bigOne) == 1
 //@ fresh out
 //@ ensures ok == (len(in) >= 4 && (len(in) - 4) % 4294967296 >= be32(in))
 //@ ensures implies(ok, out != nil && view(rest, in, 4 + be32(in), len(in)))
